@@ -268,7 +268,7 @@ def _legacy(which):
         if rng is not None:
             kw["rng"] = rng
         algo = cls(**kw)
-        res = algo.optimize(objfn, 3, numpy.arange(len(ebv)), numpy.array([1.0]))
+        res = algo.optimize(objfn, 3, numpy.arange(len(ebv)), numpy.array([float(par.get("wt", 1.0))]))
         return [numpy.asarray(res[0], dtype=float).ravel(), numpy.asarray(res[1])]
     return f
 
